@@ -183,6 +183,11 @@ def pad_obligations(ctx, u, rule, fnames):
                     if S.items:
                         prev = S.items[-1]
                     j -= 1
+                if isinstance(prev, str) and prev.startswith("if("):
+                    ctx.ob(rule, "%s:pad@after-diverging-branch#%d" % (q, sum(1 for o in ctx.obs if o.rule == rule and o.instance.startswith(q + ":"))), False, site=A.where(s),
+                           detail={"statement": A.src(s), "preceded_by": prev},
+                           what="alignment step `%s` in %s follows a branch whose arms advance the cursor differently (%s)" % (A.src(s), q, prev))
+                    continue
                 if prev == "strlen":
                     exp = "pad+"
                 elif prev == "len" or isinstance(prev, int):
